@@ -89,6 +89,27 @@ def frame_table(ctx, H):
             if it["hdr"] is None:
                 continue
             wire_payload = bytes(b ^ it["key"][i % 4] for i, b in enumerate(it["payload"])) if it["mask"] else bytes(it["fr"].payload)
+            # what the library itself writes for this frame (its three writers, on a socket that records): header, length / key, and the payload - masked
+            # with the frame's key when the mask flag is set (RFC 6455 5.3), whatever the key
+            class Sock:
+                def __init__(s):
+                    s.out = bytearray()
+
+                def sendall(s, d):
+                    s.out += bytes(d)
+            sk = Sock()
+            try:
+                it["fr"].writeHeader(sk)
+                it["fr"].writeDataHeader(sk)
+                it["fr"].writeData(sk)
+                written = bytes(sk.out)
+            except Exception as e:
+                written = b"raised " + type(e).__name__.encode()
+            if written != it["hdr"] + wire_payload and it["n"] <= 70000:
+                k = next((i for i, (x, y) in enumerate(zip(written, it["hdr"] + wire_payload)) if x != y), min(len(written), len(it["hdr"]) + len(wire_payload)))
+                ctx.fail("frame opcode=%d mask=%d length=%d key=%s: the bytes the library writes differ from the RFC 6455 encoding at offset %d (header is %d bytes): written %s, RFC %s"
+                         % (it["op"].value, it["mask"], it["n"], it["key"].hex(), k, len(it["hdr"]), written[k:k + 8].hex(), (it["hdr"] + wire_payload)[k:k + 8].hex()),
+                         dict(kind="written", opcode=it["op"].value, mask=it["mask"], n=it["n"], key=it["key"].hex()), sig=None)
             buf = H.WebSocketTemporaryRingBuffer(FakeRequest())
             buf._push(it["hdr"] + wire_payload)
             try:
